@@ -400,8 +400,23 @@ pub fn texts(tier: &str, seed: u64, mut f: impl FnMut(&str, &str)) {
                     7 => format!("[{}]", sec.to_lowercase()),
                     _ => format!("[{}],1,2", sec),
                 };
-                let at = 1 + r.below(lines.len().max(2) - 1);
-                lines.insert(at.min(lines.len()), look);
+                let at = (1 + r.below(lines.len().max(2) - 1)).min(lines.len());
+                // half of the time followed by a record of the section the line resembles,
+                // so that a decoder that wrongly follows it reads something visible
+                if r.chance(1, 2) {
+                    let rec = match sec {
+                        "General" => "Mode: 3",
+                        "Editor" => "GridSize: 17",
+                        "Metadata" => "Title:after a look-alike",
+                        "Difficulty" => "CircleSize: 6.5",
+                        "Events" => "2,123456,234567",
+                        "TimingPoints" => "345678,-25,4,2,1,33,0,1",
+                        "Colours" => "Combo5 : 9,8,7",
+                        _ => "77,88,456789,1,0,0:0:0:0:",
+                    };
+                    lines.insert(at, rec.to_string());
+                }
+                lines.insert(at, look);
             }
         }
         let nl = if i % 7 == 0 { "\r\n" } else { "\n" };
